@@ -80,7 +80,7 @@ class NaiveElimination(PALAlgorithm):
             c = 1 + np.sqrt(2)  # Any c>0 should suffice according to Lemma B.12.
             self.L = np.ceil(
                 4
-                * ((c * noise_var * ordering_complexity / self.epsilon) ** 2)
+                * ((c * np.sqrt(noise_var) * ordering_complexity / self.epsilon) ** 2)
                 * np.log(4 * self.m / (2 * self.delta / (self.K * (self.K - 1))))
             ).astype(int)
         else:
